@@ -313,9 +313,9 @@ func (m *Machine) chanSend(c *chanVal, v value) {
 		m.curVC().set(g, m.curVC().get(g)+1)
 	}
 	c.sendq = append(c.sendq, req)
-	// a blocking send is recorded when the sender commits to it: the native replay must let
-	// the sender enter the channel operation before the receiver that completes it
-	m.event("send")
+	// a blocking send is recorded when the sender commits to it ("sendb"): the native replay
+	// lets the sender enter the channel operation and admits the following events beside it
+	m.event("sendb")
 	m.block(func() bool { return req.done || c.closed })
 	if !req.done {
 		panic(goPanic{"send on closed channel"})
